@@ -172,7 +172,8 @@ Scale(h, p, q, sdtype) ==
 Normalized(h, percent) ==
     LET t == Total(h)
         x == [h EXCEPT !.den = t, !.dtype = Promote(h.dtype, "f8"), !.prec = Max2(@, IF IsPow2(t) /\ IsPow2(h.den) THEN 0 ELSE 1)]
-    IN  IF percent THEN Scale(x, 100, 1, "f8") ELSE Reduce(x)
+    IN  IF percent THEN [Scale(x, 100, 1, "f8") EXCEPT !.prec = Max2(@, 1)]    \* in place: divides by total * 0.01
+        ELSE Reduce(x)
 
 ---------------------------------------------------------------------------
 (* merge_bins(amount): runs of `amount` adjacent bins; the last run may be shorter. *)
